@@ -454,6 +454,80 @@ Proof.
   apply Ne. apply N2Nat.inj in Ek. congruence.
 Qed.
 
+(* ------------------------------------------------------------------ stored rows: whole-row writes *)
+Section WholeRowsP.
+  Variable row : Type.
+  Variable same_key : row -> row -> bool.
+  Variable V : row -> bool.         (* verify() accepts the row as a whole *)
+
+  (* invariant "stored ⊆ verified": if every row handed to a write was verified, every stored row is *)
+  Theorem whole_rows_invariant : forall ops s,
+    Forall (fun r => V r = true) s ->
+    Forall (fun o => match wrow row o with Some r => V r = true | None => True end) ops ->
+    Forall (fun r => V r = true) (fold_left (wstep row same_key) ops s).
+  Proof.
+    induction ops as [|o ops IH]; intros s Hs Ho; [exact Hs|].
+    inversion Ho as [|o' ops' Ho1 Ho2]; subst. cbn [fold_left]. apply IH; [|exact Ho2].
+    assert (Filt : forall f, Forall (fun r => V r = true) (filter f s)).
+    { intro f. apply Forall_forall. intros x Hx. apply filter_In in Hx. rewrite Forall_forall in Hs. apply Hs. apply Hx. }
+    destruct o as [r|r|r|r]; cbn [wstep wrow] in *.
+    - unfold insert_if_absent. destruct (existsb (same_key r) s); [exact Hs|].
+      apply Forall_app. split; [exact Hs | constructor; [exact Ho1 | constructor]].
+    - unfold upsert. apply Forall_app. split; [apply Filt | constructor; [exact Ho1 | constructor]].
+    - unfold delete_key. apply Filt.
+    - apply Forall_app. split; [exact Hs | constructor; [exact Ho1 | constructor]].
+  Qed.
+End WholeRowsP.
+
+Lemma whole_verifies : forall rows j x, nth_error rows j = Some x -> verifies rows (whole j x) = true.
+Proof.
+  intros rows j x H. unfold verifies, whole. cbn [s_sig s_id s_key s_mdate s_json]. rewrite H.
+  rewrite !N.eqb_refl, Z.eqb_refl. reflexivity.
+Qed.
+
+Lemma peer_write_verified : forall rows st j,
+  Forall (fun r => verifies rows r = true) st -> Forall (fun r => verifies rows r = true) (peer_write rows st j).
+Proof.
+  intros rows st j H. unfold peer_write. destruct (nth_error rows j) as [x|] eqn:E; [|exact H].
+  apply (whole_rows_invariant srow same_id (verifies rows) [WInsert srow (whole j x)] st H).
+  constructor; [cbn; apply whole_verifies; exact E | constructor].
+Qed.
+
+Lemma set_nth_Forall : forall {A} (P : A -> Prop) n v l, Forall P l -> P v -> Forall P (set_nth n v l).
+Proof.
+  intros A P n v l. revert n. induction l as [|x l IH]; intros n Hl Hv; [destruct n; constructor|].
+  inversion Hl; subst. destruct n; cbn [set_nth]; constructor; auto.
+Qed.
+
+Theorem peer_stores_verified : forall rows init ops,
+  Forall (fun st => Forall (fun r => verifies rows r = true) st) (peer_run rows init ops).
+Proof.
+  intros rows init ops. unfold peer_run.
+  assert (I : Forall (fun st => Forall (fun r => verifies rows r = true) st) (map (init_store rows) init)).
+  { apply Forall_forall. intros st Hst. apply in_map_iff in Hst. destruct Hst as [js [E _]]. subst st.
+    unfold init_store. apply Forall_forall. intros r Hr. apply in_flat_map in Hr. destruct Hr as [j [_ Hr]].
+    destruct (nth_error rows j) as [x|] eqn:Ex; [|destruct Hr]. destruct Hr as [Hr|[]]. subst r. apply whole_verifies. exact Ex. }
+  revert I. generalize (map (init_store rows) init). induction ops as [|o ops IH]; intros stores I; [exact I|].
+  cbn [fold_left]. apply IH. unfold peer_op.
+  destruct (nth_error stores (fst o)) as [st|] eqn:E; [|exact I].
+  apply set_nth_Forall; [exact I|]. apply peer_write_verified.
+  rewrite Forall_forall in I. apply I. eapply nth_error_In. exact E.
+Qed.
+
+Lemma served_rows_verified : forall rows stores keys,
+  Forall (fun st => Forall (fun r => verifies rows r = true) st) stores ->
+  filter (fun x => negb (verifies rows x)) (served_rows stores keys) = [].
+Proof.
+  intros rows stores keys H.
+  assert (A : Forall (fun r => verifies rows r = true) (served_rows stores keys)).
+  { rewrite Forall_forall in H. unfold served_rows. apply Forall_app. split; apply Forall_forall; intros r Hr.
+    - apply in_concat in Hr. destruct Hr as [st [Hst Hr]]. specialize (H st Hst). rewrite Forall_forall in H. apply H. exact Hr.
+    - apply in_flat_map in Hr. destruct Hr as [st [Hst Hr]]. apply in_flat_map in Hr. destruct Hr as [k [_ Hr]].
+      unfold served in Hr. destruct (find (fun s0 => N.eqb (s_key s0) k) st) as [x|] eqn:F; [|destruct Hr].
+      destruct Hr as [Hr|[]]. subst r. apply find_some in F. specialize (H st Hst). rewrite Forall_forall in H. apply H. apply F. }
+  induction A as [|x l Hx _ IH]; [reflexivity|]. cbn [filter]. rewrite Hx. cbn [negb]. exact IH.
+Qed.
+
 (* ------------------------------------------------------------------ sign() then verify() *)
 (* HOLDS since fix 6d1bd7f: what sign() accepts, verify() accepts (the generated flag says whether the
    source still evaluates the size bound before the signature is in place; if it does again, this
@@ -521,7 +595,7 @@ Section Signatures.
   Theorem run_spec_outside_known : forall c, case_ok c = true -> known_C06_gen Hf c = [] ->
     spec_C06 c (run_C06_gen Hf c) = true.
   Proof.
-    intros c Ok K. destruct c as [k r j | k1 r1 j1 k2 r2 j2 | k r j ch | b]; cbn [case_ok] in Ok.
+    intros c Ok K. destruct c as [k r j | k1 r1 j1 k2 r2 j2 | k r j ch | b | rows init ops nkeys | sops]; cbn [case_ok] in Ok.
     - cbn [run_C06_gen spec_C06 known_C06_gen] in *. destruct (layout_of k) as [l|]; [|discriminate Ok].
       rewrite rev_app_distr. cbn [rev app].
       destruct (sign_accept l r j) eqn:Sa; cbn [zb Z.eqb negb orb andb]; [|reflexivity].
@@ -546,6 +620,9 @@ Section Signatures.
       destruct (layout_of k) as [l|]; [|discriminate Ok].
       destruct (bytes_eqb (challenge_of Hf l r ch) (Hf (enc l r))); [discriminate K|].
       rewrite andb_false_r. reflexivity.
+    - reflexivity.
+    - cbn [run_C06_gen spec_C06]. rewrite rev_app_distr. cbn [rev app].
+      rewrite (served_rows_verified _ _ _ (peer_stores_verified rows init ops)). reflexivity.
     - reflexivity.
   Qed.
 End Signatures.
